@@ -8,6 +8,7 @@ import (
 	"encoding/binary"
 	"fmt"
 	"io"
+	"os"
 	"testing"
 
 	"github.com/creack/pty"
@@ -190,6 +191,35 @@ func c18HandEncodeExec(flags byte, cmd, term string, size *pty.Winsize) (enc []b
 	return
 }
 
+// c18ExecBoundLens clears the top 12 bits of the two 32-bit length fields as
+// GetCmd will see them (second field located after the first was bounded), so
+// that no mutation makes GetCmd allocate more than 1 MiB per field: GetCmd
+// allocates whatever the length says (a C11 subject, checked there with a
+// bounded size), and two multi-GiB buffers per case would exhaust the machine.
+// GetCmd reuses its 4-byte length buffer, so a truncated second field inherits
+// bytes of the first, which are bounded already.
+func c18ExecBoundLens(in []byte) []byte {
+	bound := func(pos int) uint32 {
+		var l [4]byte
+		if pos < len(in) {
+			in[pos] = 0
+		}
+		if pos+1 < len(in) {
+			in[pos+1] &= 0x0F
+		}
+		if pos < len(in) {
+			copy(l[:], in[pos:])
+		}
+		return binary.BigEndian.Uint32(l[:])
+	}
+	cmdLen := bound(1)
+	pos := 5 + int(cmdLen)
+	if pos <= len(in) {
+		bound(pos)
+	}
+	return in
+}
+
 // (B) mutated requests. GetCmd never reports an error, so every input
 // "decodes successfully"; length fields are capped at 1 MiB here (what a
 // 4-GiB length does is C11's subject).
@@ -210,34 +240,50 @@ func c18ExecRunB(c c18ExecB, v *vlib.Verdict) {
 		flags |= hasSizeFlag
 	}
 	enc, fields := c18HandEncodeExec(flags, cmd, term, size)
-	in := wire.Mutate(enc, fields, c.Muts, 1<<20)
-	dec := func(b []byte) (r [4]any, consumed int, panicked bool) {
+	in := c18ExecBoundLens(wire.Mutate(enc, fields, c.Muts, 1<<20))
+	var valid []any
+	if len(c.Muts) == 0 && flags&^3 == 0 {
+		valid = []any{cmd, term, c.Base.UsePty, c18SizeStr(size)}
+	}
+	c18ExecBytesB(in, valid, len(c.Muts) == 0, v)
+}
+
+// c18ExecBytesB: decode -> encode -> decode on raw bytes whose length fields
+// were bounded by c18ExecBoundLens. valid, when not nil, is what the bytes were
+// built from by hand.
+func c18ExecBytesB(in []byte, valid []any, unmutated bool, v *vlib.Verdict) {
+	var sz *pty.Winsize
+	dec := func(b []byte) (r [4]any, consumed int, err error, panicked bool) {
 		st := &wire.Stream{Data: b}
 		panicked = vlib.Guard(v, func() {
-			a, bb, p, s, e := GetCmd(&wire.Conn{Stream: st})
-			r = [4]any{a, bb, p, c18SizeStr(s)}
-			_ = e
+			var a, bb string
+			var p bool
+			a, bb, p, sz, err = GetCmd(&wire.Conn{Stream: st})
+			r = [4]any{a, bb, p, c18SizeStr(sz)}
 		})
-		return r, st.Consumed, panicked
+		return r, st.Consumed, err, panicked
 	}
-	v1, consumed, p := dec(in)
+	v1, consumed, derr, p := dec(in)
 	if p {
 		return
 	}
-	if len(c.Muts) == 0 && flags&^3 == 0 {
-		if v1[0] != cmd || v1[1] != term || v1[2] != c.Base.UsePty || v1[3] != c18SizeStr(size) {
+	if derr != nil {
+		if unmutated {
+			v.Failf("C18:decode-rejects-valid-encoding:codex.execInitMsg", "GetCmd rejects a hand-built valid request: %v", derr)
+			return
+		}
+		v.Label("decoder-rejected")
+		return
+	}
+	sz1 := sz
+	if valid != nil {
+		if v1[0] != valid[0] || v1[1] != valid[1] || v1[2] != valid[2] || v1[3] != valid[3] {
 			v.Failf("C18:roundtrip-mismatch:codex.execInitMsg:hand-encoding", "hand-built valid request decodes differently: %.60v", v1)
 			return
 		}
 	}
-	var sz *pty.Winsize
-	{
-		// re-encode what was decoded
-		st := &wire.Stream{Data: in}
-		_, _, _, sz, _ = GetCmd(&wire.Conn{Stream: st})
-	}
 	var re []byte
-	if vlib.Guard(v, func() { re = newExecInitMsg(v1[2].(bool), v1[0].(string), v1[1].(string), sz).ToBytes() }) {
+	if vlib.Guard(v, func() { re = newExecInitMsg(v1[2].(bool), v1[0].(string), v1[1].(string), sz1).ToBytes() }) {
 		return
 	}
 	if consumed > len(in) || !bytes.Equal(re, in[:consumed]) {
@@ -246,8 +292,12 @@ func c18ExecRunB(c c18ExecB, v *vlib.Verdict) {
 	} else {
 		v.Label("accepted-canonical")
 	}
-	v2, _, p2 := dec(re)
+	v2, _, derr2, p2 := dec(re)
 	if p2 {
+		return
+	}
+	if derr2 != nil {
+		v.Failf("C18:redecode-fails:codex.execInitMsg", "GetCmd accepted %d bytes; the re-encoding of what it returned (%d bytes) is rejected: %v", len(in), len(re), derr2)
 		return
 	}
 	if v1 != v2 {
@@ -271,4 +321,23 @@ func TestVerifC18ExecDecEncDec(t *testing.T) {
 		c.Muts = wire.GenMuts(t, 0, 3)
 		return c
 	}})
+}
+
+// FuzzVerifC18ExecInit: native fuzzing of the execution-request decode ->
+// encode -> decode oracle (only does work when VERIF_FUZZ is set).
+func FuzzVerifC18ExecInit(f *testing.F) {
+	if os.Getenv("VERIF_FUZZ") == "" {
+		f.Skip("native fuzzing runs in the thorough tier only")
+	}
+	f.Add(newExecInitMsg(true, "ls -l", "xterm", &pty.Winsize{Rows: 24, Cols: 80}).ToBytes())
+	f.Add(newExecInitMsg(false, "", "", nil).ToBytes())
+	f.Fuzz(func(t *testing.T, in []byte) {
+		var v vlib.Verdict
+		c18ExecBytesB(c18ExecBoundLens(append([]byte(nil), in...)), nil, false, &v)
+		for _, vi := range v.Violations {
+			if !vlib.KnownOpen(vi.Sig) {
+				t.Fatalf("VERIF-VIOLATION sig=%s detail=%s", vi.Sig, vi.Detail)
+			}
+		}
+	})
 }
